@@ -47,6 +47,14 @@ def jobs(tier, seed):
                                 continue
                             out.append({"name": f"step-{move}-{kern}-n{n}-out{int(outl)}-N{N}-thr{thr}", "kind": "step", "move": move, "n": n, "G": 2,
                                         "outliers": outl, "kernel": kern, "wiring": "run", "N": N, "thr": thr, "fixed": {}, "cost": 10 * n ** 3 * N})
+    if tier == "quick":
+        # three data points with a single particle (only the retained path and the final draw remain): cheap, and the first size at
+        # which the subtree move can select a real clone below a single top-level clone while outliers exist
+        for outl in (False, True):
+            for kern in c01.PROPOSALS:
+                for move in ("pg", "subtree", "burnin"):
+                    out.append({"name": f"step-{move}-{kern}-n3-out{int(outl)}-N1-thr0", "kind": "step", "move": move, "n": 3, "G": 2,
+                                "outliers": outl, "kernel": kern, "wiring": "run", "N": 1, "thr": "0", "fixed": {}, "cost": 60})
     for n in (1, 2):
         for kern in tuple(c01.PROPOSALS):
             for outl in (False, True):
